@@ -76,6 +76,8 @@ def get_structuring_elem(A,Bc):
         if A.ndim != Bc.ndim:
             raise ValueError('morph.get_structuring_elem: Bc does not have the correct number of dimensions. [array has {} coordinates; Bc has {}.]'.format(A.ndim, Bc.ndim))
         Bc = np.asanyarray(Bc, A.dtype)
+        if Bc.size == 0:
+            raise ValueError('morph.get_structuring_elem: Bc cannot be an empty array (zero-length axis)')
         if not Bc.flags.contiguous:
             return Bc.copy()
         return Bc
@@ -117,6 +119,8 @@ def disk(radius, dim=2):
     import numpy as np
     if dim <= 0:
         raise ValueError('mahotas.morph.disk: dimension must be positive')
+    if dim > 64:
+        raise ValueError('mahotas.morph.disk: too many dimensions')
     shape = [(radius*2+1) for _ in range(dim)]
     if dim == 2:
         return _morph.disk_2d(np.zeros(shape, bool), radius)
